@@ -169,11 +169,21 @@ class PVLDecoder(object):
                 return str(value[1:-1])
         raise ValueError(f'The object "{value}" is not a PVL Quoted String.')
 
+    # [sign] (digits [. [digits]] | . digits) [E [sign] digits]
+    decimal_re = re.compile(
+        r"[+-]?([0-9]+\.?[0-9]*|\.[0-9]+)([eE][+-]?[0-9]+)?"
+    )
+
     def decode_decimal(self, value: str):
         """Returns a Python ``int`` or ``self.real_cls`` object, as appropriate
         based on *value*.  Raises a ValueError otherwise.
         """
         # Returns int or real_cls
+        if self.decimal_re.fullmatch(value) is None:
+            # int() and float() accept more than PVL numbers:
+            # "inf", "nan", "1_0", surrounding white space ...
+            raise ValueError(f'The object "{value}" is not a PVL number.')
+
         try:
             return int(value, base=10)
         except ValueError:
